@@ -126,7 +126,11 @@ func (ex *Exec) roundDyadic(neg bool, a IntV, k int) Value {
 	ex.assumeT(Lt(q, IntConst(two53)))
 	half := IntConst(pow2(s - 1))
 	up := Or(Lt(half, r), And(Eq(r, half), Not(isEven(q))))
-	m := Add(q, Ite(up, IntConst64(1), IntConst64(0)))
+	// (a name for the rounded significand keeps later constraints small)
+	m := ex.freshVar("fmr", SInt)
+	ex.assumeT(Eq(m, Add(q, Ite(up, IntConst64(1), IntConst64(0)))))
+	ex.assumeT(Le(IntConst(two52), m))
+	ex.assumeT(Le(m, IntConst(two53)))
 	kk := k + s
 	if ex.decide(Eq(m, IntConst(two53))) {
 		m = IntConst(two52)
